@@ -89,9 +89,9 @@ Section Inv.
   Variable nconns : nat.
   Variable tgt : nat -> N.
   (* the real code: no critical section takes p.mu again ([reent] = false) *)
-  Notation step := (step strat false nconns tgt).
-  Notation run := (run strat false nconns tgt).
-  Notation reachable := (reachable strat false nconns tgt).
+  Notation step := (step strat false false nconns tgt).
+  Notation run := (run strat false false nconns tgt).
+  Notation reachable := (reachable strat false false nconns tgt).
 
   Lemma run_app ls1 : forall s ls2,
     run s (ls1 ++ ls2) = match run s ls1 with Some s1 => run s1 ls2 | None => None end.
@@ -215,7 +215,7 @@ Section Inv.
 
   (** ---- 2. the holder of the pool lock can always move ---- *)
 
-  Lemma holder_can_step_inv s : lock_inv s -> holder_can_step strat false nconns tgt s.
+  Lemma holder_can_step_inv s : lock_inv s -> holder_can_step strat false false nconns tgt s.
   Proof.
     intros (Hrd & Hmx & [Hrun1 Hrun2] & Hw & _). unfold holder_can_step.
     destruct (writer s) as [[|w]|] eqn:Hwr.
@@ -233,7 +233,7 @@ Section Inv.
   Qed.
 
   Theorem pool_never_blocks heads b s :
-    reachable (init_state heads b) s -> holder_can_step strat false nconns tgt s.
+    reachable (init_state heads b) s -> holder_can_step strat false false nconns tgt s.
   Proof. intros Hr. apply holder_can_step_inv. exact (lock_inv_reachable _ _ _ Hr). Qed.
 
   (** ---- 3. ... the lock is freed and the announced writer served by finitely many
@@ -280,7 +280,7 @@ Section Inv.
     induction rem as [|w rem IH]; intros s u mt Hp; cbn [length repeat PoolWait.run].
     - exists s. repeat apply conj; auto.
     - unfold PoolWait.step at 1. rewrite Hp.
-      match goal with |- context [PoolWait.run _ _ _ _ ?s1 _] => set (s1' := s1) end.
+      match goal with |- context [PoolWait.run _ _ _ _ _ ?s1 _] => set (s1' := s1) end.
       destruct (IH s1' u mt eq_refl) as (s' & Hrun & H1 & H2 & H3 & H4 & H5 & H6 & H7 & H8 & H9 & H10 & H11).
       exists s'. split; [exact Hrun|]. subst s1'. sred. repeat apply conj; assumption.
   Qed.
